@@ -1,27 +1,30 @@
-//! C09: 128-bit (S)LEB128 codecs in candid::types::leb128, all byte strings up to N.
+macro_rules! len_mode {
+    (symbolic, $n:expr) => {{ let l: usize = kani::any(); kani::assume(l <= $n); l }};
+    (fixed, $n:expr) => { $n };
+}
+// C09: 128-bit (S)LEB128 codecs in candid::types::leb128, all byte strings up to N.
 use crate::oracle::*;
 use candid::types::leb128::{decode_int, decode_nat, encode_int, encode_nat};
 
 macro_rules! dec_nat_h {
-    ($name:ident, $n:expr, $unw:expr) => {
+    ($name:ident, $n:expr, $unw:expr) => { dec_nat_h!($name, $n, $unw, symbolic); };
+    ($name:ident, $n:expr, $unw:expr, $mode:ident) => {
         harness! {
             #[kani::unwind($unw)]
             fn $name() {
                 const N: usize = $n;
                 let buf: [u8; N] = kani::any();
-                let len: usize = kani::any();
-                kani::assume(len <= N);
+                let len: usize = len_mode!($mode, N);
                 let mut rd: &[u8] = &buf[..len];
                 let r = decode_nat(&mut rd);
                 let consumed = len - rd.len();
-                match ref_leb_u128(&buf, len) {
+                let o = ref_leb_u128(&buf, len);
+                match o {
                     Leb::Unterminated => {
                         assert!(r.is_err(), "unterminated LEB128 must be an error");
-                        kani::cover!(len > 0, "unterminated reached");
                     }
-                    Leb::OutOfRange { end } => {
+                    Leb::OutOfRange { .. } => {
                         assert!(r.is_err(), "nat >= 2^128 must be rejected by the u128 decoder");
-                        kani::cover!(end == 19, "minimal out-of-range reached");
                     }
                     Leb::Val { v, end } => {
                         match &r {
@@ -31,35 +34,36 @@ macro_rules! dec_nat_h {
                             }
                             Err(_) => assert!(false, "terminated in-range LEB128 must decode"),
                         }
-                        kani::cover!(end == 19 && v >= (1u128 << 127), "19-byte in-range value reached");
-                        kani::cover!(end > 19, "padded encoding longer than 19 bytes reached");
                     }
                 }
+                kani::cover!(matches!(o, Leb::Unterminated) && len > 0, "unterminated reached");
+                kani::cover!(N < 19 || matches!(o, Leb::OutOfRange { end: 19 }), "minimal out-of-range reached");
+                kani::cover!(matches!(o, Leb::Val { v, end } if (N < 19 && v > 127) || (end == 19 && v >= (1u128 << 127))) && r.is_ok(), "large in-range value decoded");
+                kani::cover!(matches!(o, Leb::Val { end, .. } if (N < 20 && end > 1) || end > 19) && r.is_ok(), "padded / long encoding decoded");
                 std::mem::forget(r);
             }
         }
     };
 }
 macro_rules! dec_int_h {
-    ($name:ident, $n:expr, $unw:expr) => {
+    ($name:ident, $n:expr, $unw:expr) => { dec_int_h!($name, $n, $unw, symbolic); };
+    ($name:ident, $n:expr, $unw:expr, $mode:ident) => {
         harness! {
             #[kani::unwind($unw)]
             fn $name() {
                 const N: usize = $n;
                 let buf: [u8; N] = kani::any();
-                let len: usize = kani::any();
-                kani::assume(len <= N);
+                let len: usize = len_mode!($mode, N);
                 let mut rd: &[u8] = &buf[..len];
                 let r = decode_int(&mut rd);
                 let consumed = len - rd.len();
-                match ref_leb_i128(&buf, len) {
+                let o = ref_leb_i128(&buf, len);
+                match o {
                     Leb::Unterminated => {
                         assert!(r.is_err(), "unterminated SLEB128 must be an error");
-                        kani::cover!(len > 0, "unterminated reached");
                     }
-                    Leb::OutOfRange { end } => {
+                    Leb::OutOfRange { .. } => {
                         assert!(r.is_err(), "int outside i128 must be rejected by the i128 decoder");
-                        kani::cover!(end == 19, "minimal out-of-range reached");
                     }
                     Leb::Val { v, end } => {
                         match &r {
@@ -69,20 +73,32 @@ macro_rules! dec_int_h {
                             }
                             Err(_) => assert!(false, "terminated in-range SLEB128 must decode"),
                         }
-                        kani::cover!(end == 19 && v == i128::MIN, "i128::MIN reached");
-                        kani::cover!(end > 19 && v < 0, "padded negative longer than 19 bytes reached");
                     }
                 }
+                kani::cover!(matches!(o, Leb::Unterminated) && len > 0, "unterminated reached");
+                kani::cover!(N < 19 || matches!(o, Leb::OutOfRange { end: 19 }), "minimal out-of-range reached");
+                kani::cover!(matches!(o, Leb::Val { v, end } if (N < 19 && v < -64) || (end == 19 && v == i128::MIN)) && r.is_ok(), "large negative value decoded");
+                kani::cover!(matches!(o, Leb::Val { v, end } if v < 0 && ((N < 20 && end > 1) || end > 19)) && r.is_ok(), "padded / long negative decoded");
                 std::mem::forget(r);
             }
         }
     };
 }
 
+// fixed length N: every string whose first terminator lies within N bytes, plus the
+// unterminated strings of length N (the decoder stops at the first terminator, so
+// shorter strings are prefixes). Symbolic length only for small N (EOF handling):
+// measured 8 s (fixed 20) vs 363 s (symbolic <= 20) for the same coverage.
+dec_nat_h!(c09_dec_nat128_eq20, 20, 22, fixed);
+dec_int_h!(c09_dec_int128_eq20, 20, 22, fixed);
+dec_nat_h!(c09_dec_nat128_le6, 6, 8);
+dec_int_h!(c09_dec_int128_le6, 6, 8);
+dec_nat_h!(c09_dec_nat128_eq28, 28, 30, fixed);
+dec_int_h!(c09_dec_int128_eq28, 28, 30, fixed);
+dec_nat_h!(c09_dec_nat128_eq40, 40, 42, fixed);
+dec_int_h!(c09_dec_int128_eq40, 40, 42, fixed);
 dec_nat_h!(c09_dec_nat128_le20, 20, 22);
 dec_int_h!(c09_dec_int128_le20, 20, 22);
-dec_nat_h!(c09_dec_nat128_le24, 24, 26);
-dec_int_h!(c09_dec_int128_le24, 24, 26);
 
 struct Sink {
     buf: [u8; 24],
